@@ -21,6 +21,17 @@ values at the other positions, which must come back untouched), the number forma
 or names of extra `locals`), and a scale S (every constant c0 and every coordinate is multiplied by S;
 by ScaleLemma of the spec the truth of degree-one relations does not change).
 
+SPELLINGS (what the implementation may branch on although it means nothing; rotated deterministically by the
+checks so that every quick run covers every spelling many times):
+    numbers      '2' | '2.0' | '2.' | '2.0e+00' | a name of `locals`; scaled constants as repr(float) ('1.862645149230957e-09', '2e+300')
+    white space  SPACINGS: as is, blanks around * and /, none, doubled + tab, and the layout of the docstrings
+                 (leading newline, indented lines, a blank line between the lines, trailing newline)
+    containers   the input vector as list of float / int / numpy.float64 / numpy.int64, float64 / int64 / float32
+                 ndarray, tuple (read-only callers), zeros written -0.0
+    arguments    nvars given / omitted, locals given / None / omitted (when the text needs none)
+    magnitudes   the unit of the integer lattice: 1, 2^40, 2^60 (huge), 2^-30, 2^-1000 (tiny but not zero), and for
+                 relations without arithmetic 0.1, 1e-10, 1e10, 1e300, 1e-300 (decimal constants with 17 digits / exponents)
+
 `check_rendering` evaluates the rendered right-hand side with Python at the point and compares with
 the right-hand value TLC emitted -- a guard on the renderer (machinery failure if it disagrees),
 never an expected value.
@@ -47,8 +58,15 @@ class Scheme(object):
     # ---- numbers ----------------------------------------------------------------------------
     def num(self, v, loc):
         """text of the non-negative constant v"""
+        if isinstance(v, float) and (self.numfmt != "locals" or v in (0.0, 1.0)):
+            return repr(v)              # a constant times a float unit: '1.862645149230957e-09', '2e+300', '0.30000000000000004'
         if self.numfmt == "float":
             return repr(float(v))
+        if self.numfmt == "dot":        # the spelling of the docstrings: 'x0/2.', 'x0 >= 0.'
+            return "%d." % v
+        if self.numfmt == "sci":        # exponent notation with an explicit '+': '2.0e+00', '1.2e+01'
+            t = "%.1e" % v
+            return t if float(t) == v else "%.16e" % v
         if self.numfmt == "locals" and v not in (0, 1):
             # the first extra locals carry names that the math / numpy star-imports of the generated code also export:
             # the user's value must win (documented: "additional variables ... and their desired values")
@@ -61,23 +79,51 @@ class Scheme(object):
 
     # ---- points -----------------------------------------------------------------------------
     def point(self, x, kind="float"):
-        """spec point (list over spec variables) -> real input vector"""
+        """spec point (list over spec variables) -> real input vector in the container spelling `kind`"""
         v = [FILL + j for j in range(self.dim)]
         for k, xv in enumerate(x):
             v[self.pos[k]] = xv * self.scale
-        if kind == "int":
-            return [int(t) for t in v]
-        v = [float(t) for t in v]
-        if kind == "array":
-            import numpy
-            return numpy.array(v)
-        return v
+        return container(v, kind)
 
     def project(self, y):
         """real vector -> (values at the spec variables, list of filler positions that changed)"""
         spec = [y[p] for p in self.pos]
         moved = [j for j in range(self.dim) if j not in self.pos and not (y[j] == FILL + j)]
         return spec, moved
+
+
+# container spellings of a vector.  'int', 'npint', 'intarray' need integral values (callers fall back to the float
+# twin otherwise: int_ok); 'intarray' / 'f32array' write results back into their own dtype, so the checks use them
+# only where the specified outcome is an integer (see check_C13.kinds_for); 'tuple' only for read-only callers.
+KIND_TWIN = {"int": "float", "npint": "npfloat", "intarray": "array", "f32array": "array"}
+
+
+def int_ok(values, limit=2 ** 52):
+    return all(float(t) == int(t) and abs(t) < limit for t in values)
+
+
+def container(v, kind):
+    import numpy
+    if kind in KIND_TWIN and not int_ok(v, 2 ** 62 if kind == "int" else (2 ** 20 if kind == "f32array" else 2 ** 52)):
+        kind = KIND_TWIN[kind]
+    if kind == "int":
+        return [int(t) for t in v]
+    if kind == "npint":
+        return [numpy.int64(int(t)) for t in v]
+    if kind == "intarray":
+        return numpy.array([int(t) for t in v], dtype=numpy.int64)
+    if kind == "f32array":
+        return numpy.array([float(t) for t in v], dtype=numpy.float32)
+    v = [float(t) for t in v]
+    if kind == "array":
+        return numpy.array(v)
+    if kind == "npfloat":
+        return [numpy.float64(t) for t in v]
+    if kind == "negzero":
+        return [(-0.0 if t == 0 else t) for t in v]
+    if kind == "tuple":
+        return tuple(v)
+    return v
 
 
 def render_rel(rel, n, sch, loc=None):
@@ -116,12 +162,13 @@ def render_rel(rel, n, sch, loc=None):
     return "%s %s %s" % (lhs, op, out), out
 
 
-SPACINGS = ("asis", "airy", "tight", "wide")
+SPACINGS = ("asis", "airy", "tight", "wide", "doc")
 
 
 def respace(text, spacing):
     """the same text with other white space (which carries no meaning in a system): blanks around every * and /,
-    no blanks at all, doubled blanks with a tab after the comparator"""
+    no blanks at all, doubled blanks with a tab after the comparator, the layout of the docstrings (a triple-quoted block: leading newline,
+    every line indented, a blank line between the lines, trailing newline and blanks)"""
     import re
     if spacing == "airy":
         return "\n".join(re.sub(r"\s*([*/])\s*", r" \1 ", ln).replace(" *  * ", "**") for ln in text.split("\n"))
@@ -130,7 +177,14 @@ def respace(text, spacing):
     if spacing == "wide":
         cmp_ = re.compile(r"(<=|>=|!=|==|<|>|=)")
         return "\n".join(cmp_.sub(lambda m: m.group(1) + "\t", ln.replace(" ", "  "), count=1) for ln in text.split("\n"))
+    if spacing == "doc":
+        return "\n" + "\n    \n".join("    " + ln for ln in text.split("\n")) + "\n  "
     return text
+
+
+def text_lines(text):
+    """the lines of a rendered system that carry a relation (the doc layout has blank ones)"""
+    return [ln for ln in text.split("\n") if ln.strip()]
 
 
 def render_sys(rels, n, sch):
@@ -170,6 +224,7 @@ def schemes_for(n, thorough=False):
     P12a = [1, 10, 11, 0][:n]
     P12b = [10, 1, 0, 11][:n]
     P12c = [2, 11, 1, 10][:n]
+    P112 = [1, 10, 100, 11][:n]
     S = [
         Scheme("x", ["x%d" % k for k in range(n)], list(range(n)), "x", n),
         Scheme("x12a", ["x%d" % k for k in P12a], P12a, "x", 12, numfmt="float"),
@@ -180,6 +235,10 @@ def schemes_for(n, thorough=False):
         Scheme("prefix", ["v", "vv", "vvv", "w"][:n], list(range(n)), ["v", "vv", "vvv", "w"][:n], n),
         Scheme("y-locals", ["y%d" % k for k in range(n)], list(range(n)), "y", n, numfmt="locals"),
         Scheme("named12", ["q%d" % k for k in P12c], P12c, ["q%d" % k for k in range(12)], 12),
+        # three-digit indices next to their one- and two-digit prefixes; numbers spelled '2.' as in the docstrings
+        Scheme("x112", ["x%d" % k for k in P112], P112, "x", 112, numfmt="dot"),
+        # numbers in exponent notation with an explicit sign: '2.0e+00'
+        Scheme("u-sci", ["u%d" % k for k in range(n)], list(range(n)), "u", n, numfmt="sci"),
     ]
     # equalities spelled '==' (both spellings are documented input) in two of the schemes
     for sc in S:
@@ -196,6 +255,46 @@ def huge_schemes(n):
     return [Scheme("x*2^40", ["x%d" % k for k in range(n)], list(range(n)), "x", n, scale=2 ** 40),
             Scheme("x12a*2^60", ["x%d" % k for k in P12a], P12a, "x", 12, scale=2 ** 60),
             Scheme("abc*2^40", list("abcd")[:n], list(range(n)), list("abcd")[:n], n, numfmt="float", scale=2 ** 40)]
+
+
+def tiny_schemes(n):
+    """tiny but not zero: the unit of the lattice is 2^-30 (~1e-9, far above the strictness tolerance 1e-15, so every
+    comparator) or 2^-1000 / 2^-400 (below it: only texts whose comparators involve no tolerance, `nonstrict_only`);
+    powers of two, so IEEE arithmetic stays exact; constants appear as 16-17 digit decimals with exponents"""
+    P12a = [1, 10, 11, 0][:n]
+    S = [Scheme("x*2^-30", ["x%d" % k for k in range(n)], list(range(n)), "x", n, scale=2.0 ** -30),
+         Scheme("abc*2^-30", list("abcd")[:n], list(range(n)), list("abcd")[:n], n, scale=2.0 ** -30),
+         Scheme("x12a*2^-1000", ["x%d" % k for k in P12a], P12a, "x", 12, scale=2.0 ** -1000),
+         Scheme("y*2^-400", ["y%d" % k for k in range(n)], list(range(n)), "y", n, scale=2.0 ** -400)]
+    S[2].nonstrict_only = S[3].nonstrict_only = True
+    return S
+
+
+def decimal_schemes(n):
+    """units that are no power of two (constants like '0.30000000000000004', '3.0000000000000003e-10', '2e+300'):
+    products with the unit are rounded, so only for relations WITHOUT arithmetic (arithmetic_free) and only where
+    signs are observed (C13)"""
+    P12a = [1, 10, 11, 0][:n]
+    S = [Scheme("x*0.1", ["x%d" % k for k in range(n)], list(range(n)), "x", n, scale=0.1),
+         Scheme("abc*1e-10", list("abcd")[:n], list(range(n)), list("abcd")[:n], n, scale=1e-10),
+         Scheme("x12a*1e10", ["x%d" % k for k in P12a], P12a, "x", 12, scale=1e10),
+         Scheme("x*1e300", ["x%d" % k for k in range(n)], list(range(n)), "x", n, scale=1e300),
+         Scheme("prefix*1e-300", ["v", "vv", "vvv", "w"][:n], list(range(n)), ["v", "vv", "vvv", "w"][:n], n, scale=1e-300)]
+    S[4].nonstrict_only = True
+    return S
+
+
+def arithmetic_free(rec):
+    """the right-hand side is a constant or plus / minus one variable: evaluating it involves no rounding whatever the unit"""
+    if rec["kind"] != "aff" or rec["m"] != 1:
+        return False
+    terms = [t for t in (rec["a1"], rec["a2"], rec["c0"]) if t != 0]
+    return len(terms) <= 1 and rec["a1"] in (-1, 0, 1) and rec["a2"] in (-1, 0, 1)
+
+
+def no_tolerance(recs):
+    """no comparator of the text brings the strictness tolerance in (=, <=, >= only)"""
+    return all(rc["op"] in ("=", "<=", ">=") for rc in recs)
 
 
 # ------------------------------------------------------------------------------------------------
